@@ -17,7 +17,25 @@ from .world import mkscratch, parse_http_response
 HERE = os.path.dirname(os.path.abspath(__file__))
 
 
+_PORT_SEQ = [0]
+
+
 def free_port():
+    """A free port from a range that belongs to this worker process alone (a port handed out by
+    the kernel could be handed to another worker before our server has bound it: two
+    deployments would then talk to each other's servers)."""
+    base = 21000 + (os.getpid() % 1900) * 20
+    for _ in range(40):
+        p = base + _PORT_SEQ[0] % 20
+        _PORT_SEQ[0] += 1
+        s = socket.socket()
+        try:
+            s.bind(("127.0.0.1", p))
+            return p
+        except OSError:
+            continue
+        finally:
+            s.close()
     s = socket.socket()
     s.bind(("127.0.0.1", 0))
     p = s.getsockname()[1]
@@ -199,11 +217,24 @@ def digest(directory):
     return out
 
 
-def run_config(frontend, prefix, principal, flagseq):
+def to_bare(cal_dir):
+    """The administrator converts a collection to a bare repository (e.g. restored from a
+    `git clone --bare` backup): same history, same contents, no work tree."""
+    import subprocess
+    tmp = cal_dir.rstrip("/") + ".bare-tmp"
+    subprocess.run(["git", "clone", "-q", "--bare", cal_dir, tmp], check=True,
+                   stdout=subprocess.DEVNULL, stderr=subprocess.DEVNULL)
+    # collection settings kept in the repository configuration travel along
+    shutil.rmtree(cal_dir)
+    os.rename(tmp, cal_dir)
+
+
+def run_config(frontend, prefix, principal, flagseq, storage="tree"):
     base = mkscratch("xd-")
     directory = os.path.join(base, "data")
     starts = []
-    info = {"frontend": frontend, "prefix": prefix, "principal": principal, "flags": list(flagseq)}
+    info = {"frontend": frontend, "prefix": prefix, "principal": principal, "flags": list(flagseq),
+            "storage": storage}
     try:
         prev_digest = None
         user = {}
@@ -215,6 +246,7 @@ def run_config(frontend, prefix, principal, flagseq):
             rec = {"flags": flags, "up": srv.up, "wellknown": False, "principal_ok": False, "cal_ok": False,
                    "ab_ok": False, "userdata_ok": True, "preserved": True, "trail": ""}
             try:
+              try:
                 if srv.up:
                     w = walk(srv.port, prefix)
                     rec["wellknown"] = w["wellknown"]
@@ -247,8 +279,21 @@ def run_config(frontend, prefix, principal, flagseq):
                                                      (cal, "Main\n\ncalendar")):
                                     http(srv.port, "PROPPATCH", target, [("Content-Type", "text/xml")],
                                          gamma.proppatch_body([("caldesc", text), ("comment", text), ("displayname", text.split("\n")[0])]))
+              except OSError as exc:
+                # the server stopped answering in the middle of the walk: an observation
+                rec["up"] = False
+                rec["trail"] = (rec.get("trail") or "") + " connection failed: %r" % (exc,)
             finally:
                 srv.stop()
+            if storage == "bare" and user and not user.get("converted"):
+                # between two lifetimes of the server: the calendar holding the user's data
+                # becomes a bare repository
+                rel = urllib.parse.unquote(urllib.parse.urlsplit(user["event"]).path)
+                rel = rel[len(prefix.rstrip("/")):] if prefix.rstrip("/") and rel.startswith(prefix.rstrip("/")) else rel
+                cal_dir = os.path.join(directory, os.path.dirname(rel).lstrip("/"))
+                if os.path.isdir(os.path.join(cal_dir, ".git")):
+                    to_bare(cal_dir)
+                    user["converted"] = True
             if not srv.up:
                 rec["trail"] = getattr(srv, "stderr", "")[-300:]
             starts.append(rec)
